@@ -4,7 +4,9 @@ R-spec (spec/C15): DatTerms.tla (symbolic messages + the device's acceptance aut
 CheckDcBinding, CheckResponseSignature), Dat.tla (two-party protocol with a Dolev-Yao intruder), DatLayout.tla (byte layouts per
 protocol version / credential class, anchored on golden artefacts).
  MC  : DatMC  - Accept(session) => the response was built for (challenge(session), dc, uuid); UUID binding only for ECC
- GEN : DatGen - TLC enumerates the credential cases and every delivery attempt of the intruder world, checks the lemmas
+ GEN : DatGen - TLC enumerates the credential cases (incl. which key of the case has a coordinate with a leading zero byte), the
+       histories of the honest host (answers re-using configuration / credential / response objects) and every delivery attempt of
+       the intruder world, checks the lemmas
  exec: SPSDK (the host) builds credentials / responses for every DAT family of the database; the device twin (c15_dev.py,
        independent parser + `cryptography` verify primitives) walks the real bytes along the automaton and logs one event
        per step; every enumerated substitution is spliced on the real bytes and decided by the twin
@@ -485,7 +487,7 @@ def _run_scenario_ele2(sc):
     except Exception as e:  # noqa: BLE001
         tools = "raise:" + exc_name(e)
     ev.append({"e": "CheckRotHash", "fromBytes": hashlib.sha512(m["table_raw"]).hexdigest() if m["srk_data_ok"] and m["rot_pub"] == pubs[used] else "srk-data-mismatch",
-               "ref": fuses.hex(), "dc": "n/a", "tools": tools, "tools2": "n/a"})
+               "ref": fuses.hex(), "dc": "n/a", "dc2": "n/a", "tools": tools, "tools2": "n/a"})
     ok = D.verify(dck_ref, m["sig"], m["signed"], scheme)
     ev.append({"e": "CheckResponseSignature", "from": 0, "to": len(m["signed"]), "sigAt": m["sig_at"] + 8, "sigLen": len(m["sig"]), "key": "dck", "scheme": scheme, "ok": ok})
     dev = D.Device2(u1, fam["socc"], fuses)
@@ -609,7 +611,13 @@ def _run_scenario(sc):
             tools2 = host.tools2_hash(rot, used).hex()
         except Exception as e:  # noqa: BLE001
             tools2 = "raise:" + exc_name(e)
-    ev.append({"e": "CheckRotHash", "fromBytes": fuses.hex(), "ref": ref.hex(), "dc": dc_hash, "tools": tools, "tools2": tools2})
+    dc2 = "n/a"     # ... and what the credential read back from its bytes reports (`nxpdebugmbox dat dc` inspection, `dat auth`)
+    if p is not None:
+        try:
+            dc2 = p.calculate_hash().hex()
+        except Exception as e:  # noqa: BLE001
+            dc2 = "raise:" + exc_name(e)
+    ev.append({"e": "CheckRotHash", "fromBytes": fuses.hex(), "ref": ref.hex(), "dc": dc_hash, "dc2": dc2, "tools": tools, "tools2": tools2})
 
     # ---- the device's challenge, read by the host
     hl = 32 if (ele or fam["sha256"] or ver[0] == 1) else {0: 32, 1: 48, 2: 64}[ver[1]]
@@ -835,7 +843,7 @@ def plan(cases, attempts, fams, tier, r, histories=()):
     per_case = 2 if tier == "quick" else 10
     per_shape = 1 if tier == "quick" else 3      # cases that differ from a plain case only in the shape of one key
     n_att = 14 if tier == "quick" else 60
-    n_hist = 2 if tier == "quick" else 10
+    n_hist = 2 if tier == "quick" else 6
     by_cls = {"classic": [f for f in fams if not f["ele"]], "ele1": [f for f in fams if f["ele"] and f["cnt"] == 1],
               "ele2": [f for f in fams if f["ele"] and f["cnt"] == 2]}
     scs = []
@@ -846,6 +854,8 @@ def plan(cases, attempts, fams, tier, r, histories=()):
         used_fams.add((fam["family"], fam["revision"]))
 
     for case in cases:
+        if tier == "quick" and case.get("lz", "none") != "none" and case["wild"]:
+            continue    # quick tier: the key-shape cases run with device-specific credentials (shape of a key and UUID field do not meet anywhere)
         pool = by_cls[case["cls"]]
         indom = [f for f in pool if tools_apply(f, case["cls"], case["ver"])]
         chosen = []
@@ -883,13 +893,29 @@ def plan(cases, attempts, fams, tier, r, histories=()):
             missing = [h for h in hcore if h not in hpool[hk]]
             if missing:
                 raise Machinery(f"core history {missing[0]} is not in the space TLC enumerated")
+        # quick tier: the histories run on the plain cases (a case that differs from a plain one only in the shape of a key adds nothing to
+        # them); building a response costs ~0.3 s with an RSA-4096 debug key and ~0.05 s with an RSA-2048 one (SPSDK loads and validates the
+        # key file per response; the response class is the same for both): core histories only, on every second (RSA-4096: eighth) scenario
+        n_core, n_extra = len(hcore), n_hist
+        if tier == "quick":
+            if sc["case"].get("lz", "none") != "none":
+                n_core, n_extra = 0, 0
+            elif tuple(sc["case"]["ver"]) == (1, 1):
+                n_core, n_extra = (2, 0) if i % 8 == 0 else (0, 0)
+            elif tuple(sc["case"]["ver"]) == (1, 0):
+                n_core, n_extra = (len(hcore), 0) if i % 2 == 0 else (0, 0)
+            elif sc["case"]["cls"] == "ele2":
+                n_extra = 1
+        elif sc["case"]["ver"][0] == 1:     # thorough tier, RSA (see above)
+            n_extra = 2
         hextra = []
-        for _ in range(n_hist if histories else 0):
+        for _ in range(n_extra if histories else 0):
             hextra.append(hcyc[hk][hpos[hk] % len(hcyc[hk])])
             hpos[hk] += 1
-        sc["histories"] = hcore + [h for h in hextra if h not in hcore]
+        sc["histories"] = hcore[:n_core] + [h for h in hextra if h not in hcore[:n_core]]
         extra = []
-        for _ in range(n_att):
+        shaped = tier == "quick" and sc["case"].get("lz", "none") != "none"   # quick: the round-robin share of the attempt space goes to the plain cases
+        for _ in range(0 if shaped else n_att):
             extra.append(cycles[binds][pos[binds] % len(cycles[binds])])
             pos[binds] += 1
         core = core_attempts(binds)
@@ -947,7 +973,7 @@ def finding_key(t, matched):
     elif e == "CheckDcSignature":
         detail = "not-verified" if not ev["ok"] else f"range={ev['from']}..{ev['to']}"
     elif e == "CheckRotHash":
-        detail = "+".join(k for k in ("fromBytes", "dc", "tools") if ev[k] != ev["ref"] and ev[k] != "n/a")
+        detail = "+".join(k for k in ("fromBytes", "dc", "dc2", "tools", "tools2") if ev.get(k, "n/a") != ev["ref"] and ev.get(k, "n/a") != "n/a")
         if ev["dc"].startswith("raise:"):
             detail += "/" + ev["dc"]
     elif e == "Dac":
@@ -965,7 +991,7 @@ def finding_key(t, matched):
         sub = [k for k in ("c0", "u0", "ch0", "c", "i", "b", "u", "d", "ch") if a[k] != h[k]]
         detail = f"subst={'+'.join(sub) or 'none'}/{ev['verdict']}"
     elif e == "History":
-        detail = history_detail(ev, sc["case"]["wild"])
+        detail = history_detail(ev, sc["case"]["wild"], sc["case"]["ver"][0] == 2 and sc["case"]["cls"] != "ele2")
     elif e == "Tamper":
         detail = f"{ev['part']}.{ev['field']}/{ev['verdict']}"
     elif e == "Deliver":
@@ -973,7 +999,7 @@ def finding_key(t, matched):
     return f"C15/{ver}/{sc['fam']['fclass']}/{e}" + (f"/{detail}" if detail else "")
 
 
-def history_detail(ev, wild):
+def history_detail(ev, wild, binds=False):
     """Name of the first step of a rejected history that does not look like the answer to its own challenge (for the finding key only:
     the verdict was TLC's)."""
     for k, (s_, o) in enumerate(zip(ev["h"], ev["obs"])):
@@ -987,6 +1013,8 @@ def history_detail(ev, wild):
             what.append("beacon")
         if any(ch != s_["ch"] for _, ch in acc):
             what.append("accepted-for-other-challenge")
+        if binds and any(d != s_["d"] for d, _ in acc):
+            what.append("accepted-by-other-device")
         if (wild or s_["d"] == "d1") and (s_["d"], s_["ch"]) not in acc:
             what.append("own-challenge-not-accepted")
         if what:
@@ -1000,9 +1028,11 @@ def slim(t):
 
 
 def validate(v, traces):
-    rej, res = tlc.tv("C15", "DatTrace", [{"id": t["id"], "ev": t["ev"]} for t in traces], heap="8g", timeout=1500)
+    from lib.ptv import ptv
+
+    rej, stats = ptv("C15", "DatTrace", [{"id": t["id"], "ev": t["ev"]} for t in traces], jobs=4, min_chunk=100, heap="4g", timeout=1500)
     v.traces(len(traces))
-    v.extra["tv_states"] = v.extra.get("tv_states", 0) + res.distinct
+    v.extra["tv_states"] = v.extra.get("tv_states", 0) + sum(x["distinct"] for x in stats)
     by_id = {t["id"]: t for t in traces}
     for tid, (matched, length, evname) in rej.items():
         t = by_id[tid]
@@ -1239,14 +1269,19 @@ def run(tier):
     if e2:
         v.sample({"scenario": e2["sc"]["case"], "family": e2["sc"]["fam"]["family"],
                   "events": [{k: x for k, x in e.items() if k != "fields"} for e in e2["ev"] if e["e"] not in ("Tamper",)][:16], "tamper": [e for e in e2["ev"] if e["e"] == "Tamper"][:3]})
+    lzt = next((t for t in traces if t["sc"]["case"]["lz"] == "other" and t["sc"]["case"]["cls"] == "classic" and any(e["e"] == "CheckRotHash" and e["tools2"] != "n/a" for e in t["ev"])), None)
+    if lzt:
+        v.sample({"scenario": lzt["sc"]["case"], "family": lzt["sc"]["fam"]["family"], "events": [e for e in lzt["ev"] if e["e"] in ("Case", "DcKeys", "CheckRotHash")]})
+    hst = next((t for t in traces if t["sc"]["case"]["cls"] == "ele2" and any(e["e"] == "History" for e in t["ev"])), None)
+    if hst:
+        v.sample({"scenario": hst["sc"]["case"], "family": hst["sc"]["fam"]["family"], "histories": [e for e in hst["ev"] if e["e"] == "History"][:2]})
     rsa = next((t for t in traces if t["sc"]["case"]["ver"][0] == 1 and t["sc"]["case"]["wild"] and t["ev"][-2]["e"] == "Tamper"), None)
     if rsa:
         v.sample({"rsa_wildcard_other_device": [e for e in rsa["ev"] if e["e"] == "Attempt" and e["a"]["d"] == "d2" and e["verdict"] == "Accept"][:2]})
     pending, rounds = traces, 0
     while pending and rounds < 8:
         rej = {}
-        for k in range(0, len(pending), 400):
-            rej.update(validate(v, pending[k:k + 400]))
+        rej.update(validate(v, pending))
         by_id = {t["id"]: t for t in pending}
         # a trace rejected at a check-only step goes round again without that step (the step stays reported)
         pending = [x for x in (continuation(by_id[tid], m[0], rounds) for tid, m in rej.items()) if x]
@@ -1255,12 +1290,15 @@ def run(tier):
     say(f"[C15] TV done {v.timer.s()}s")
 
     v.cov["rule"] = (
-        f"cases = the 164 abstract credential cases TLC enumerates (classic RSA 1.0/1.1, ECC 2.0/2.1/2.2 with 1..4 RoT keys and each used index; "
+        f"cases = the 588 abstract credential cases TLC enumerates: 164 plain ones (classic RSA 1.0/1.1, ECC 2.0/2.1/2.2 with 1..4 RoT keys and each used index; "
         f"EdgeLock-enclave credentials of container version 1 (5 key types) and 2 (3 ECC key types) with 4 keys; device-specific and wildcard) x "
-        f"{2 if tier == 'quick' else 10} DAT families each (fewer where a class has fewer families), every family of the database "
-        f"at least once ({v.extra['families']} families, {v.extra['family_revisions']} revisions); per scenario the honest exchange, the core substitutions and a "
-        "round-robin share of the 2304 delivery attempts TLC enumerates, plus one bit flip per field of the response; distinct = (family class, case) and "
-        "(class, wildcard, attempt)"
+        f"{2 if tier == 'quick' else 10} DAT families each (fewer where a class has fewer families), and 424 P-256 / P-384 cases in which the used RoT key, "
+        f"another RoT key or the debug key has an X resp. Y coordinate with a leading zero byte x {1 if tier == 'quick' else 3} families (one on which the image "
+        f"tools define the RoT hash); every family of the database at least once ({v.extra['families']} families, {v.extra['family_revisions']} revisions); per scenario "
+        "the honest exchange, the core substitutions and a round-robin share of the 2304 delivery attempts TLC enumerates, core histories (configuration object / "
+        "credential object / response object used again for other challenges, beacons, devices) and a round-robin share of the 2040 histories TLC enumerates "
+        "(quick tier: on the plain cases; RSA: core histories only, on every second - RSA-4096: eighth - scenario; key-shape cases with device-specific credentials and the core attempts only), plus one bit flip per field of the response; "
+        "distinct = (family class, case), (class, wildcard, attempt) and (class, key type, wildcard, history)"
     )
     v.cov["checker_cmd"] = "TLC DatGen (cases, attempts, lemmas) ; TLC DatMC (protocol invariants) ; TLC DatTrace (decides every trace)"
     v.cov["trusted_base"] = ["TLC", "cryptography: RSA PKCS#1 v1.5 / PSS verify, ECDSA verify, PEM key loading - called directly", "hashlib (SHA-256/384/512)",
@@ -1275,6 +1313,12 @@ def run(tier):
         "SHA-512 digests (64 bytes), the only hash SPSDK's own table names for that key size (no anchor)",
         "DAC root-of-trust hash length per family class is taken from the database flags (based_on_ele, dat_is_using_sha256_always)",
         "debug key and RoT keys are of the same type; RSA public exponent 65537; beacons are 16-bit values as documented",
+        "histories: the host answers through DebugAuthenticateResponse.load_from_config (a new configuration dictionary, or the SAME dictionary again with only "
+        "its own `beacon` entry set by the caller), DebugAuthenticateResponse.create (the credential object it holds already) and export() of a response object "
+        "it holds already; assigning to attributes of a finished response object (dar.dac = ..., dar.auth_beacon = ...) is not a way of building a response the "
+        "property talks about and is not asserted; a step SPSDK refuses builds nothing (counted in coverage.history_steps_refused)",
+        "key shapes: leading-zero coordinates are asked for P-256 / P-384 (keys derived once, keys/c15/gen_lz.py); the P-521 keys of the pool have the shape anyway, "
+        "an RSA modulus has none; the second image-tool path (certificate block v2.1 over the same key files) exists for the classic ECC credentials only",
         "a configuration SPSDK refuses creates nothing and is outside the property (counted in coverage.refused)",
         "RSA versions: the response is not bound to the device UUID by protocol definition (stated in DatTerms, not reported)",
     ]
